@@ -12,7 +12,8 @@
    node in which order, the result's dimensions and coordinates, and that a batch size
    changes the graph but neither the values nor the dimensions. *)
 From Coq Require Import List NArith ZArith String Bool Field QArith Qcanon.
-From EKW Require Import Fluent.XArr Fluent.Action Fluent.Batch Fluent.ActionProofs.
+From EKW Require Import Fluent.XArr Fluent.Action Fluent.Batch Fluent.ActionProofs Fluent.ActionSpecs
+  Fluent.ActionStd Fluent.ActionTransform.
 From EKW Require Fluent.ActionCheck.   (* keeps the correspondence checker's .vo in step with the model *)
 Import ListNotations.
 Close Scope Qc_scope.
@@ -77,22 +78,41 @@ Proof. exact batch_loop_fuel. Qed.
 Theorem C13_mean_batched_eq :
   forall (K : Type) k0 k1 kadd kmul ksub kopp kdiv kinv,
   field_theory k0 k1 kadd kmul ksub kopp kdiv kinv (@eq K) ->
-  forall other srcK d bs keep bkw a r,
+  forall ksqrt other srcK d bs keep bkw a r,
     a_mean d bs keep bkw a = Ok r ->
     exists r0, a_mean d 0 keep bkw a = Ok r0 /\
       xdims r = xdims r0 /\ xscal r = xscal r0 /\
-      forall t, ev K srcK (apK K k0 k1 kadd kopp kdiv other) (xat r t) =
-                ev K srcK (apK K k0 k1 kadd kopp kdiv other) (xat r0 t).
+      forall t, ev K srcK (apK K k0 k1 kadd kmul ksub kopp kdiv ksqrt other) (xat r t) =
+                ev K srcK (apK K k0 k1 kadd kmul ksub kopp kdiv ksqrt other) (xat r0 t).
 Proof.
-  intros K k0 k1 kadd kmul ksub kopp kdiv kinv Kth other srcK.
-  exact (mean_batching_invariant K k0 k1 kadd kmul ksub kopp kdiv kinv Kth other srcK).
+  intros K k0 k1 kadd kmul ksub kopp kdiv kinv Kth ksqrt other srcK.
+  exact (mean_batching_invariant K k0 k1 kadd kmul ksub kopp kdiv kinv Kth ksqrt other srcK).
 Qed.
 
-(* (4) std with a batch size computes sqrt(sum x^2 / n - (sum x / n)^2) (see Action.a_std and
-   the cell trees compared on every run); over a field this IS the variance
-   sum (x - mu)^2 / n.  PARTIAL: the algebraic identity is proved for all lists; the
-   cell-level composition through power/sum/divide/subtract is tied by correspondence only. *)
-Theorem C13_std_batched_eq_partial :
+(* (4) std with any batch size -- (power(2).sum(batched).divide(n) - mean(batched).power(2)).power(0.5),
+   through the real join/reduce of the two-action subtraction -- has the dimensions and the
+   cell values of the unbatched std, over any field in which the counts are invertible, with
+   an uninterpreted square root.  The array must not already use the helper name
+   "**datatype**" that two-action arithmetic joins on. *)
+Theorem C13_std_batched_eq :
+  forall (K : Type) k0 k1 kadd kmul ksub kopp kdiv kinv,
+  field_theory k0 k1 kadd kmul ksub kopp kdiv kinv (@eq K) ->
+  forall ksqrt other srcK,
+  (forall n, (0 < n)%nat -> of_nat K k0 k1 kadd n <> k0) ->
+  forall d bs keep bkw a r,
+    fresh DT a ->
+    a_std d bs keep bkw a = Ok r ->
+    exists r0, a_std d 0 keep bkw a = Ok r0 /\
+      xdims r = xdims r0 /\ xscal r = xscal r0 /\
+      forall t, ev K srcK (apK K k0 k1 kadd kmul ksub kopp kdiv ksqrt other) (xat r t) =
+                ev K srcK (apK K k0 k1 kadd kmul ksub kopp kdiv ksqrt other) (xat r0 t).
+Proof.
+  intros K k0 k1 kadd kmul ksub kopp kdiv kinv Kth ksqrt other srcK Hc.
+  exact (std_batching_invariant K k0 k1 kadd kmul ksub kopp kdiv kinv Kth ksqrt other srcK Hc).
+Qed.
+
+(* (4') the algebra used by (4): the variance identity, for all lists over a field *)
+Theorem C13_variance_identity :
   forall (K : Type) k0 k1 kadd kmul ksub kopp kdiv kinv,
   field_theory k0 k1 kadd kmul ksub kopp kdiv kinv (@eq K) ->
   forall l : list K,
@@ -110,10 +130,10 @@ Qed.
 Theorem C13_sum_obeys_batch_law :
   forall (K : Type) k0 k1 kadd kmul ksub kopp kdiv kinv,
   field_theory k0 k1 kadd kmul ksub kopp kdiv kinv (@eq K) ->
-  forall other kw, batch_law K (gf K (apK K k0 k1 kadd kopp kdiv other) f_sum kw).
+  forall ksqrt other kw, batch_law K (gf K (apK K k0 k1 kadd kmul ksub kopp kdiv ksqrt other) f_sum kw).
 Proof.
-  intros K k0 k1 kadd kmul ksub kopp kdiv kinv Kth other kw.
-  exact (sum_law_sem K k0 k1 kadd kmul ksub kopp kdiv kinv Kth other kw).
+  intros K k0 k1 kadd kmul ksub kopp kdiv kinv Kth ksqrt other kw.
+  exact (sum_law_sem K k0 k1 kadd kmul ksub kopp kdiv kinv Kth ksqrt other kw).
 Qed.
 
 (* (6) structural operations: what each cell is *)
@@ -138,6 +158,175 @@ Theorem C13_select_label_cells : forall name c drop a r,
     forall t, xat r t = xat a (insert_at k p t).
 Proof. exact select_one_spec. Qed.
 
+(* (7) join.  Along a NEW dimension: it comes first, has size 2 (unindexed, or with the two
+   given coordinates), the other dimensions must agree exactly, and position 0 / 1 holds the
+   cells of the first / second operand.  Along an EXISTING dimension: coordinates appended,
+   cells of the first operand first. *)
+Theorem C13_join_new_dim_cells : forall name given a b r,
+  fresh name a -> fresh name b -> x_concat name given a b = Ok r ->
+  exists nd, xdims r = nd :: xdims a /\ dname nd = name /\
+    match given with
+    | None => dcoords nd = zrange 2 /\ dindexed nd = false
+    | Some cs => dcoords nd = cs /\ dindexed nd = true /\ List.length cs = 2%nat
+    end /\
+    dims_compat (xdims a) (xdims b) = Ok tt /\
+    merge_scal (xscal a) (xscal b) = Ok (xscal r) /\
+    forall t, xat r (0%nat :: t) = xat a t /\ xat r (1%nat :: t) = xat b t.
+Proof. exact concat_new_spec. Qed.
+
+Theorem C13_join_existing_dim_cells : forall name a b k r,
+  find_dim name (xdims a) = Some k -> find_dim name (xdims b) = Some k ->
+  x_concat name None a b = Ok r ->
+  let da := nth k (xdims a) dflt_dim in let db := nth k (xdims b) dflt_dim in
+  xdims r = replace_at k {| dname := name;
+                            dcoords := if dindexed da then dcoords da ++ dcoords db
+                                       else zrange (List.length (dcoords da ++ dcoords db));
+                            dindexed := dindexed da |} (xdims a) /\
+  dims_compat (remove_at k (xdims a)) (remove_at k (xdims b)) = Ok tt /\
+  merge_scal (xscal a) (xscal b) = Ok (xscal r) /\
+  forall idx, xat r idx = if Nat.ltb (nth k idx 0%nat) (size_at k a) then xat a idx
+                          else xat b (replace_at k (nth k idx 0%nat - size_at k a)%nat idx).
+Proof. exact concat_existing_spec. Qed.
+
+Theorem C13_join_is_concat : forall name given matchc a b r,
+  a_join name given matchc a b = Ok r ->
+  exists b', (if matchc then match_coords a b else Ok b) = Ok b' /\ xat b' = xat b /\
+             x_concat name given a b' = Ok r.
+Proof. exact join_spec. Qed.
+
+(* (8) arithmetic between two actions: same dimensions (all indexed afterwards), and the cell
+   at t applies the operation to (cell of self at t, cell of other at t) IN THAT ORDER *)
+Theorem C13_binary_cells : forall f kw x y r,
+  fresh DT x -> fresh DT y -> a_bin f kw x y = Ok r ->
+  xdims r = map reindexed (xdims x) /\
+  (exists y', match_coords x y = Ok y' /\ merge_scal (xscal x) (xscal y') = Ok (xscal r)) /\
+  forall t, xat r t = App f [xat x t; xat y t] [] kw.
+Proof. exact bin_spec. Qed.
+
+(* (9) iselect by one position (negative positions count from the end) and by a list *)
+Theorem C13_iselect_cells : forall name i drop a r,
+  x_isel1 name (IOne i) drop a = Ok r ->
+  exists k p, find_dim name (xdims a) = Some k /\
+    norm_pos (size_at k a) i = Some p /\
+    xdims r = remove_at k (xdims a) /\
+    forall t, xat r t = xat a (insert_at k p t).
+Proof. exact iselect_one_spec. Qed.
+
+Theorem C13_iselect_list_cells : forall name is drop a r,
+  x_isel1 name (IMany is) drop a = Ok r ->
+  exists k ps, find_dim name (xdims a) = Some k /\
+    all_some (map (norm_pos (size_at k a)) is) = Some ps /\
+    xdims r = replace_at k (let d := nth k (xdims a) dflt_dim in
+                            {| dname := dname d;
+                               dcoords := if dindexed d then map (fun p => nth p (dcoords d) (CZ 0)) ps
+                                          else zrange (List.length ps);
+                               dindexed := dindexed d |}) (xdims a) /\
+    xscal r = xscal a /\
+    forall idx, xat r idx = xat a (replace_at k (nth (nth k idx 0%nat) ps 0%nat) idx).
+Proof. exact iselect_many_spec. Qed.
+
+(* (10) stack / concatenate / flatten: on a dimension of size <> 1 they are the reduction with
+   backends.stack (kwargs axis first) / backends.concat, so (1), (1'), (2), (2') apply to them *)
+Theorem C13_stack_is_reduce : forall d bs keep axis bkw a k,
+  find_dim d (xdims a) = Some k -> size_at k a <> 1%nat ->
+  a_stack d bs keep axis bkw a = a_reduce f_stack (("axis", CZ axis) :: bkw) d bs keep a.
+Proof. exact stack_is_reduce. Qed.
+
+Theorem C13_concatenate_is_reduce : forall d bs keep bkw a k,
+  find_dim d (xdims a) = Some k -> size_at k a <> 1%nat ->
+  a_concatenate d bs keep bkw a = a_reduce f_concat bkw d bs keep a.
+Proof. exact concatenate_is_reduce. Qed.
+
+Theorem C13_stack_cells : forall d axis bkw a r k,
+  d <> "" -> find_dim d (xdims a) = Some k -> size_at k a <> 1%nat ->
+  a_stack d 0 false axis bkw a = Ok r ->
+  xdims r = map reindexed (remove_at k (xdims a)) /\ xscal r = xscal a /\
+  forall t, xat r t = App f_stack (map (fun x => xat a (insert_at k x t)) (seq 0 (size_at k a)))
+                          [] (("axis", CZ axis) :: bkw).
+Proof. exact stack_cells. Qed.
+
+Theorem C13_concatenate_cells : forall d bkw a r k,
+  d <> "" -> find_dim d (xdims a) = Some k -> size_at k a <> 1%nat ->
+  a_concatenate d 0 false bkw a = Ok r ->
+  xdims r = map reindexed (remove_at k (xdims a)) /\ xscal r = xscal a /\
+  forall t, xat r t = App f_concat (map (fun x => xat a (insert_at k x t)) (seq 0 (size_at k a))) [] bkw.
+Proof. exact concatenate_cells. Qed.
+
+Theorem C13_flatten_cells : forall d axis bkw a r,
+  a_flatten d axis bkw a = Ok r ->
+  exists d' k, default_dim d a = Ok d' /\ find_dim d' (xdims a) = Some k /\
+    xdims r = map reindexed (remove_at k (xdims a)) /\ xscal r = xscal a /\
+    forall t, xat r t = App f_stack (map (fun x => xat a (insert_at k x t)) (seq 0 (size_at k a)))
+                            [] (("axis", CZ axis) :: bkw).
+Proof. exact flatten_cells. Qed.
+
+(* (11) expand, through the real transform loop (body, _add_dimension, join, squeeze): a new
+   indexed dimension at the normalised axis; position i holds take(cell, i-th index,
+   dim=internal).  One index: no dimension, a scalar coordinate.  ALWAYS succeeds for a fresh
+   name, a valid axis and scalar coordinates with distinct names. *)
+Theorem C13_expand_cells : forall name vals internal sel axis bkw a k,
+  fresh name a -> scal_ok (xscal a) -> norm_axis (List.length (xdims a)) axis = Some k ->
+  let idxs := match sel with inl n => zrange n | inr l => l end in
+  (2 <= List.length idxs)%nat ->
+  match vals with Some v => List.length v = List.length idxs | None => True end ->
+  exists r, a_expand name vals internal sel axis bkw a = Ok r /\
+    xdims r = insert_at k {| dname := name;
+                             dcoords := match vals with Some v => v | None => zrange (List.length idxs) end;
+                             dindexed := true |} (xdims a) /\
+    xscal r = xscal a /\
+    forall idx, List.length idx = S (List.length (xdims a)) -> (nth k idx 0 < List.length idxs)%nat ->
+      xat r idx = App f_take [xat a (remove_at k idx)] [nth (nth k idx 0%nat) idxs (CZ 0)]
+                      (("dim", internal) :: bkw).
+Proof. exact expand_spec_many. Qed.
+
+Theorem C13_expand_single_cells : forall name vals internal sel axis bkw a k i v,
+  fresh name a -> scal_ok (xscal a) -> norm_axis (List.length (xdims a)) axis = Some k ->
+  match sel with inl n => zrange n | inr l => l end = [i] ->
+  match vals with Some w => w | None => zrange 1 end = [v] ->
+  exists r, a_expand name vals internal sel axis bkw a = Ok r /\
+    xdims r = xdims a /\ xscal r = xscal a ++ [(name, v)] /\
+    forall t, List.length t = List.length (xdims a) ->
+      xat r t = App f_take [xat a t] [i] (("dim", internal) :: bkw).
+Proof. exact expand_spec_single. Qed.
+
+(* (12) transform in general, for a body whose results B j all have dimensions D and scalar
+   coordinates Sc: the results are laid out along the new dimension in parameter order *)
+Theorem C13_transform_cells : forall (P : Type) (body : P -> res xarr) (B : nat -> xarr) D Sc name vs axis k,
+  (forall j, xdims (B j) = D) -> (forall j, xscal (B j) = Sc) ->
+  find_dim name D = None -> lookup name Sc = None -> scal_ok Sc ->
+  norm_axis (List.length D) axis = Some k ->
+  forall params vals,
+  (2 <= List.length params)%nat ->
+  vs = match vals with Some v => v | None => zrange (List.length params) end ->
+  (List.length params <= List.length vs)%nat ->
+  (forall j p, nth_error params j = Some p -> body p = Ok (B j)) ->
+  exists r, transform body name vals axis params = Ok r /\
+    xdims r = insert_at k {| dname := name; dcoords := firstn (List.length params) vs; dindexed := true |} D /\
+    xscal r = Sc /\
+    forall idx, List.length idx = S (List.length D) -> (nth k idx 0 < List.length params)%nat ->
+      xat r idx = xat (B (nth k idx 0%nat)) (remove_at k idx).
+Proof. exact transform_many. Qed.
+
+(* (13) the batching round of Action.reduce transcribed statement by statement
+   (transform over _batch_transform: select the labels with drop, squeeze a singleton or reduce,
+   add the batch dimension, join) IS the closed form `batch_round` that a_reduce iterates and
+   (2) reasons about: same dimensions, coordinates, scalar coordinates and cells.  PARTIAL in
+   one respect only: it is stated per round, for an array whose dimensions are indexed, whose
+   reduced labels are distinct (both checked by a_reduce), whose scalar coordinates have
+   distinct names and that does not already use the batch dimension's name. *)
+Theorem C13_batch_round_transcription_partial : forall f kw dim bs newname a k,
+  find_dim dim (xdims a) = Some k -> default_dim dim a = Ok dim ->
+  (forall d, In d (xdims a) -> dindexed d = true) ->
+  nodupb (dcoords (nth k (xdims a) dflt_dim)) = true ->
+  scal_ok (xscal a) -> fresh newname a ->
+  (0 < bs)%nat -> (bs < size_at k a)%nat ->
+  exists r, batch_round_t f kw dim bs newname a = Ok r /\
+    xdims r = xdims (batch_round f kw k bs newname a) /\
+    xscal r = xscal (batch_round f kw k bs newname a) /\
+    forall idx, List.length idx = List.length (xdims r) -> (hd 0 idx < nbatches (size_at k a) bs)%nat ->
+      xat r idx = xat (batch_round f kw k bs newname a) idx.
+Proof. exact batch_round_transcription. Qed.
+
 (* ------------------------------------------------------------------ non-vacuity *)
 Definition exA : xarr :=
   a_source [("x", [CZ 10; CZ 11; CZ 12; CZ 13; CZ 14]); ("y", [CS "a"; CS "b"])] 0.
@@ -160,7 +349,7 @@ Proof. vm_compute. repeat split; reflexivity. Qed.
 
 (* the batch law and the field hypotheses are satisfiable: the rationals (Qc, Leibniz equality) *)
 Example C13_batch_law_nonvacuous :
-  forall other kw, batch_law Qc (gf Qc (apK Qc 0%Qc 1%Qc Qcplus Qcopp Qcdiv other) f_sum kw).
+  forall ksqrt other kw, batch_law Qc (gf Qc (apK Qc 0%Qc 1%Qc Qcplus Qcmult Qcminus Qcopp Qcdiv ksqrt other) f_sum kw).
 Proof. exact (C13_sum_obeys_batch_law Qc 0%Qc 1%Qc Qcplus Qcmult Qcminus Qcopp Qcdiv Qcinv Qcft). Qed.
 
 Example C13_batching_never_fails_nonvacuous :
@@ -178,15 +367,82 @@ Example C13_structural_nonvacuous :
   is_ok (x_sel1 "x" (SOne (CZ 12)) false exA) = true.
 Proof. vm_compute. split; reflexivity. Qed.
 
+(* the counts 1, 2, 3, ... are non-zero in Qc, so (4) applies to the rationals *)
+Example C13_std_field_nonvacuous : forall n, (0 < n)%nat -> of_nat Qc 0%Qc 1%Qc Qcplus n <> 0%Qc.
+Proof.
+  assert (H0 : forall n, (0 <= of_nat Qc 0 1 Qcplus n)%Qc).
+  { induction n as [|n IH]; [apply Qcle_refl|]. cbn [of_nat].
+    replace 0%Qc with (0 + 0)%Qc by ring. apply Qcplus_le_compat; [discriminate|exact IH]. }
+  intros [|n] Hn; [inversion Hn|]. cbn [of_nat]. apply not_eq_sym, Qclt_not_eq.
+  apply Qclt_le_trans with (y := 1%Qc); [reflexivity|].
+  replace 1%Qc with (1 + 0)%Qc at 1 by ring. apply Qcplus_le_compat; [apply Qcle_refl|apply H0].
+Qed.
+
+Example C13_std_nonvacuous :
+  fresh DT exA /\ is_ok (a_std "x" 2 true [] exA) = true /\ is_ok (a_std "" 3 false [] exA) = true.
+Proof. split; [split; reflexivity|]. vm_compute. split; reflexivity. Qed.
+
+Definition exB : xarr :=
+  a_source [("x", [CZ 10; CZ 11; CZ 12; CZ 13; CZ 14]); ("y", [CS "a"; CS "b"])] 100.
+
+Example C13_structural2_nonvacuous :
+  fresh "j" exA /\ fresh "j" exB /\
+  is_ok (x_concat "j" (Some [CS "u"; CS "v"]) exA exB) = true /\
+  is_ok (a_join "y" None false exA (a_source [("x", [CZ 10; CZ 11; CZ 12; CZ 13; CZ 14]); ("y", [CS "c"])] 200)) = true /\
+  is_ok (a_bin f_sub [] exA exB) = true /\
+  is_ok (x_isel1 "x" (IOne (-1)) false exA) = true /\ is_ok (x_isel1 "x" (IMany [4; 0]%Z) true exA) = true /\
+  is_ok (a_stack "x" 0 false 1 [] exA) = true /\ is_ok (a_concatenate "x" 2 true [] exA) = true /\
+  is_ok (a_flatten "" 0 [] exA) = true /\ size_at 0 exA <> 1%nat.
+Proof. repeat split; try reflexivity. vm_compute. discriminate. Qed.
+
+Example C13_expand_nonvacuous :
+  fresh "e" exA /\ scal_ok (xscal exA) /\ norm_axis (List.length (xdims exA)) (-1) = Some 2%nat /\
+  is_ok (a_expand "e" (Some [CS "p"; CS "q"; CS "r"]) (CZ 1) (inl 3%nat) (-1) [] exA) = true /\
+  is_ok (a_expand "e" None (CZ 0) (inr [CZ 2]) 0 [] exA) = true.
+Proof. split; [split; reflexivity|]. split; [intros n v []|]. repeat split; reflexivity. Qed.
+
+(* the transcribed round on a size-5 dimension with batch size 2 (three batches, the last a singleton) *)
+Example C13_batch_round_transcription_nonvacuous :
+  find_dim "x" (xdims exA) = Some 0%nat /\ default_dim "x" exA = Ok "x" /\
+  forallb dindexed (xdims exA) = true /\ nodupb (dcoords (nth 0 (xdims exA) dflt_dim)) = true /\
+  scal_ok (xscal exA) /\ fresh "batch.0.x" exA /\
+  match batch_round_t f_sum [] "x" 2 "batch.0.x" exA with
+  | Ok r => List.length (xdims r) = 2%nat /\
+            match xat r [0%nat; 1%nat], xat r [2%nat; 1%nat] with
+            | App _ ins _ _, Src i => List.length ins = 2%nat /\ i = 9%N
+            | _, _ => False end
+  | Err _ => False end.
+Proof.
+  split; [reflexivity|]. split; [reflexivity|]. split; [reflexivity|]. split; [reflexivity|].
+  split; [intros n v []|]. split; [split; reflexivity|]. vm_compute. repeat split; reflexivity.
+Qed.
+
 Print Assumptions C13_reduce_cells.
 Print Assumptions C13_reduce_cells_keep_dim.
 Print Assumptions C13_batching_never_changes_values.
 Print Assumptions C13_batching_never_fails.
 Print Assumptions C13_batch_loop_terminates.
 Print Assumptions C13_mean_batched_eq.
-Print Assumptions C13_std_batched_eq_partial.
+Print Assumptions C13_variance_identity.
 Print Assumptions C13_sum_obeys_batch_law.
 Print Assumptions C13_map_cells.
 Print Assumptions C13_broadcast_cells.
 Print Assumptions C13_select_label_cells.
 Print Assumptions C13_batch_law_nonvacuous.
+Print Assumptions C13_std_batched_eq.
+Print Assumptions C13_join_new_dim_cells.
+Print Assumptions C13_join_existing_dim_cells.
+Print Assumptions C13_join_is_concat.
+Print Assumptions C13_binary_cells.
+Print Assumptions C13_iselect_cells.
+Print Assumptions C13_iselect_list_cells.
+Print Assumptions C13_stack_is_reduce.
+Print Assumptions C13_concatenate_is_reduce.
+Print Assumptions C13_stack_cells.
+Print Assumptions C13_concatenate_cells.
+Print Assumptions C13_flatten_cells.
+Print Assumptions C13_expand_cells.
+Print Assumptions C13_expand_single_cells.
+Print Assumptions C13_transform_cells.
+Print Assumptions C13_batch_round_transcription_partial.
+Print Assumptions C13_std_field_nonvacuous.
